@@ -2,6 +2,7 @@ ACC = "crates/astria-sequencer/src/accounts/state_ext.rs"
 CA = "crates/astria-sequencer/src/checked_actions/mod.rs"
 BL = "crates/astria-sequencer/src/checked_actions/bridge/bridge_lock.rs"
 BU = "crates/astria-sequencer/src/checked_actions/bridge/bridge_unlock.rs"
+BT = "crates/astria-sequencer/src/checked_actions/bridge/bridge_transfer.rs"
 
 PRELUDE = r'''
 vx_insufficient_funds_marker!();
@@ -12,6 +13,10 @@ pub struct BridgeLock { pub to: Address, pub amount: u128, pub asset: asset::Den
 #[derive(Clone, Debug)]
 pub struct BridgeUnlock { pub to: Address, pub amount: u128, pub fee_asset: asset::Denom, pub memo: Text, pub bridge_address: Address,
                           pub rollup_block_number: u64, pub rollup_withdrawal_event_id: EventId }
+#[derive(Clone, Debug)]
+pub struct BridgeTransfer { pub to: Address, pub amount: u128, pub fee_asset: asset::Denom, pub destination_chain_address: Text, pub bridge_address: Address,
+                            pub rollup_block_number: u64, pub rollup_withdrawal_event_id: EventId }
+pub type CheckedBridgeUnlock = CheckedBridgeUnlockImpl<true>;
 '''
 
 HARNESS = r'''
@@ -111,6 +116,39 @@ HARNESS = r'''
             assert!(store().peek(ev) == store().peek_init(ev));     // a refused withdrawal consumes no event id
         }
     }
+    // ---- BridgeTransfer: bridge-to-bridge = unlock (authority, event id) + lock (deposit, equal credit) in one call ----------------
+    #[kani::proof]
+    #[kani::unwind(10)]
+    fn bridge_transfer_execute_contract() {
+        reset_store();
+        let signer: [u8; ADDRESS_LEN] = kani::any();
+        let x = IbcPrefixed(kani::any());
+        let from = Address::any(); let to = Address::any(); let amount: u128 = kani::any();
+        let ev_id = EventId(kani::any()); let bn: u64 = kani::any();
+        let unlock = BridgeUnlock { to, amount, fee_asset: Denom::any(), memo: Text(0), bridge_address: from, rollup_block_number: bn, rollup_withdrawal_event_id: ev_id };
+        let lock = BridgeLock { to, amount, asset: Denom::IbcPrefixed(x), fee_asset: Denom::any(), destination_chain_address: Text(kani::any()) };
+        let mut deposit = any_deposit(); deposit.bridge_address = to; deposit.amount = amount;
+        let action = BridgeTransfer { to, amount, fee_asset: Denom::any(), destination_chain_address: Text(0), bridge_address: from, rollup_block_number: bn, rollup_withdrawal_event_id: ev_id };
+        let ev = Key::WithdrawalEvent(from.bytes, ev_id);
+        store().declare(Key::Balance(from.bytes, x)); store().declare(Key::Balance(to.bytes, x));
+        store().declare(Key::BridgeWithdrawer(from.bytes)); store().declare(ev); store().declare(Key::BridgeDisabled(to.bytes));
+        let checked = CheckedBridgeTransfer { action,
+            checked_bridge_unlock: CheckedBridgeUnlockImpl { action: unlock, tx_signer: signer.into(), bridge_account_ibc_asset: x },
+            checked_bridge_lock: CheckedBridgeLockImpl { action: lock, tx_signer: signer.into(), deposit: deposit.clone() } };
+        let r = checked.execute(State);
+        let f0 = bal_init(&from.bytes, x); let t0 = bal_init(&to.bytes, x);
+        if r.is_ok() {
+            assert!(store().peek_init(Key::BridgeWithdrawer(from.bytes)).map(val_addr) == Some(signer));     // C02: current withdrawer of the source bridge
+            assert!(store().peek_init(ev).is_none() && store().peek(ev).map(|v| v as u64) == Some(bn));       // C04: event id fresh, then recorded under (bridge, id)
+            assert!(store().n_deposits == 1 && store().deposits[0] == Some(deposit));                          // C04: exactly one deposit, for the credited bridge
+            if from.bytes != to.bytes { assert!(f0 >= amount && bal_now(&from.bytes, x) == f0 - amount); assert!(t0.checked_add(amount) == Some(bal_now(&to.bytes, x))); }
+            assert!(store().peek_init(Key::BridgeDisabled(to.bytes)).map_or(true, |v| v & 1 == 0));
+            assert!(store().unchanged_except(&[Key::Balance(from.bytes, x), Key::Balance(to.bytes, x), ev]));
+        } else {
+            assert!(store().peek(ev) == store().peek_init(ev));
+        }
+    }
+
     #[kani::proof]
     #[kani::unwind(10)]
     fn canary_bridge_unlock_ok_reachable() {
@@ -151,6 +189,11 @@ UNIT = dict(
         dict(file=BU, path="impl<const PURE_UNLOCK: bool> CheckedBridgeUnlockImpl<PURE_UNLOCK>/fn run_mutable_checks"),
         dict(file=BU, path="impl<const PURE_UNLOCK: bool> CheckedBridgeUnlockImpl<PURE_UNLOCK>/fn record_withdrawal_event"),
         dict(file=BU, path="impl CheckedBridgeUnlockImpl<true>/fn execute"),
+        dict(file=BU, path="impl<const PURE_UNLOCK: bool> CheckedBridgeUnlockImpl<PURE_UNLOCK>/fn action"),
+        dict(file=BU, path="impl CheckedBridgeUnlockImpl<false>/fn bridge_account_ibc_asset"),
+        dict(file=BT, path="struct CheckedBridgeTransfer", keep_derives=set()),
+        dict(file=BT, path="impl CheckedBridgeTransfer/fn run_mutable_checks"),
+        dict(file=BT, path="impl CheckedBridgeTransfer/fn execute"),
     ],
     harness=HARNESS,
     harnesses=[
@@ -158,6 +201,7 @@ UNIT = dict(
         dict(name="canary_bridge_lock_ok_reachable", expect="fail"),
         dict(name="bridge_unlock_execute_contract", obligation="CheckedBridgeUnlock::execute::ensures#signer-is-current-withdrawer+event-id-fresh-then-recorded+exact-transfer+frame"),
         dict(name="canary_bridge_unlock_ok_reachable", expect="fail"),
+        dict(name="bridge_transfer_execute_contract", obligation="CheckedBridgeTransfer::execute::ensures#withdrawer-of-source+event-id-fresh-then-recorded+one-deposit+exact-transfer+frame"),
     ],
     assumptions=["A-store typed accessors over the symbolic store (shims/seq.rs); create_deposit_event (ABCI event construction) counted only",
                  "action structs BridgeLock/BridgeUnlock are shim copies with the same field names (String fields opaque)",
